@@ -10,34 +10,58 @@ From PyIpmi Require Import Lib.Res Lib.Bytes Lib.Prog Model.SdrIO Proofs.SdrIOPr
 Import ListNotations.
 Open Scope N_scope.
 
-(* Exact or error: whatever the limit, the reservation states and the fault plan (any codes
-   at any indices), a read that returns, returns exactly the addressed record and the id of
-   its successor.
-   PARTIAL: proved for stores whose records are at most 256 bytes long ([short_recs]).
-   Full statement: the same without [short_recs] (records up to 260 bytes) but with
-   [plan_ok s] (injected codes are only 0xC3 / 0xCE).  Missing: for records of 257..260
-   bytes the offset field of the request is one byte (push_unsigned_int truncates 256..259
-   to 0..3), so exactness needs the arithmetic fact that with a constant limit no offset
-   above 255 is requested within the 19 iterations (chunk size m in {20,16,12,8,4}:
-   5 + m*k < 260 and k <= 18 imply 5 + m*k <= 245) - true, checked by the correspondence
-   run on lengths 255 / 260, not yet carried through the loop invariant.  Without plan_ok
-   the full statement is false (a device answering 0xCA inconsistently can drive the
-   offset to 257). *)
-Theorem C11_exact_or_error_partial : forall st s rid resv nx data s' tr,
-  Forall wf_rec (recs_of st s) -> short_recs (recs_of st s) -> rid < 65536 ->
+(* Exact or error, for every record length 5..260 ([wf_rec]), every limit, every reservation
+   state and every fault plan of the property (cancellations, raised node-busy and the
+   transient codes 0xC3 / 0xCE at any request index, any number of them: [plan_ok]): a read
+   that returns, returns exactly the addressed record and the id of its successor - otherwise
+   the outcome is an error, never altered, duplicated or truncated data.
+   (The offset field of the request is one byte; that no offset above 255 is ever requested
+   follows from the retry budget and the chunk sizes - invariant [full_inv] in
+   Proofs/SdrIOProofs.v.) *)
+Theorem C11_exact_or_error : forall st s rid resv nx data s' tr,
+  Forall wf_rec (recs_of st s) -> plan_ok s -> rid < 65536 ->
   run (get_sdr st rid resv) sdr_dev s [] = (Ok (nx, data), s', tr) ->
   lookup (recs_of st s) rid = Some (data, nx).
 Proof. exact exact_or_error. Qed.
-Print Assumptions C11_exact_or_error_partial.
+Print Assumptions C11_exact_or_error.
+
+(* the same for ARBITRARY injected completion codes, when every record fits the one-byte
+   offset (at most 256 bytes) *)
+Theorem C11_exact_or_error_any_codes : forall st s rid resv nx data s' tr,
+  Forall wf_rec (recs_of st s) -> short_recs (recs_of st s) -> rid < 65536 ->
+  run (get_sdr st rid resv) sdr_dev s [] = (Ok (nx, data), s', tr) ->
+  lookup (recs_of st s) rid = Some (data, nx).
+Proof. exact exact_or_error_any_codes. Qed.
+Print Assumptions C11_exact_or_error_any_codes.
+
+(* Outside the property (recorded because it delimits the two theorems above): for a record
+   longer than 256 bytes and a device whose limit is INCONSISTENT - one 20-byte read refused
+   with 0xCA after three were accepted - the read returns altered data (offset 257 is sent
+   as 1).  Reproduced on the real code; not a C11 violation (the property's limits are
+   constant per device). *)
+Theorem C11_exact_or_error_inconsistent_limit_refuted :
+  let s := inconsistent_state in
+  Forall wf_rec (recs_of Repo s) /\ 4 <= s_limit s /\
+  exists nx data, fst (fst (run (get_sdr Repo 0x0102 None) sdr_dev s [])) = Ok (nx, data) /\
+                  lookup (recs_of Repo s) 0x0102 <> Some (data, nx).
+Proof. exact inconsistent_limit_alters. Qed.
+Print Assumptions C11_exact_or_error_inconsistent_limit_refuted.
 
 (* Listing yields every record exactly once, in store order, with the right successor ids
-   (same restriction to records of at most 256 bytes, inside [wf_store]). *)
-Theorem C11_list_complete_partial : forall fuel st s l s' tr,
-  wf_store (recs_of st s) -> recs_of st s <> [] -> (length (recs_of st s) <= fuel)%nat ->
+   ([wf_store]: records 5..260 bytes, distinct ids other than 0 and 0xFFFF). *)
+Theorem C11_list_complete : forall fuel st s l s' tr,
+  wf_store (recs_of st s) -> plan_ok s -> recs_of st s <> [] -> (length (recs_of st s) <= fuel)%nat ->
   run (sdr_entries fuel st) sdr_dev s [] = (Ok l, s', tr) ->
   l = annot (recs_of st s) /\ map snd l = recs_of st s.
 Proof. exact list_complete. Qed.
-Print Assumptions C11_list_complete_partial.
+Print Assumptions C11_list_complete.
+
+Theorem C11_list_complete_any_codes : forall fuel st s l s' tr,
+  wf_store (recs_of st s) -> short_recs (recs_of st s) -> recs_of st s <> [] -> (length (recs_of st s) <= fuel)%nat ->
+  run (sdr_entries fuel st) sdr_dev s [] = (Ok l, s', tr) ->
+  l = annot (recs_of st s) /\ map snd l = recs_of st s.
+Proof. exact list_complete_any_codes. Qed.
+Print Assumptions C11_list_complete_any_codes.
 
 (* Same store: against ANY device (any state type, any replies) every request sent while
    reading a store - in particular every reservation renewal - is that store's Get command
@@ -67,7 +91,7 @@ Print Assumptions C11_budget_list.
    loops end by themselves (Ok, RetryError, a completion code or a decoding error - never
    the model's OutOfFuel); with C11_exact_or_error: otherwise an error, never altered data *)
 Theorem C11_budget_terminates : forall st s rid resv x s' tr,
-  Forall wf_rec (recs_of st s) -> short_recs (recs_of st s) -> rid < 65536 -> plan_ok s -> 4 <= s_limit s ->
+  Forall wf_rec (recs_of st s) -> rid < 65536 -> plan_ok s -> 4 <= s_limit s ->
   run (get_sdr st rid resv) sdr_dev s [] = (x, s', tr) -> x <> Err OutOfFuel.
 Proof. exact no_fuel_get. Qed.
 Print Assumptions C11_budget_terminates.
